@@ -1283,3 +1283,26 @@ func (p *Prog) LitsInter(b *ssa.BasicBlock) []Lit {
 	}
 	return out
 }
+
+// LitImpliesGreater reports whether literal l states X > k for its left operand X
+// (accepting the equivalent forms X > k, !(X <= k), X >= k+1, !(X < k+1)).
+func LitImpliesGreater(l Lit, k int64) bool {
+	if l.Kind != "cmp" {
+		return false
+	}
+	c, ok := ConstInt(l.Y)
+	if !ok {
+		return false
+	}
+	switch {
+	case l.Op == token.GTR && l.Pol && c == k:
+		return true
+	case l.Op == token.LEQ && !l.Pol && c == k:
+		return true
+	case l.Op == token.GEQ && l.Pol && c == k+1:
+		return true
+	case l.Op == token.LSS && !l.Pol && c == k+1:
+		return true
+	}
+	return false
+}
